@@ -47,11 +47,12 @@ class Ctx:
 
     def floor(self, rule, what, count, floor):
         """fail closed when an extractor finds fewer instances than were counted by hand"""
-        # the floor is a vacuity guard, not a frozen count: three quarters of the number counted by hand, so that merging or
-        # splitting a few sites in a behaviour-preserving edit does not trip it while an extractor that stops matching still does
-        need = max(1, (floor * 3) // 4)
+        # the floor is a vacuity guard, not a frozen count: a third of the number counted by hand, so that merging or splitting
+        # sites in a behaviour-preserving edit (sixteen builders sharing one helper) does not trip it while an extractor that
+        # stops matching (which finds nothing, or next to nothing) still does
+        need = max(1, floor // 3)
         self.inst(rule + ".FLOOR", what, count >= need, None,
-                  "only %d instances of %s found, floor is %d (three quarters of the %d counted by hand; the extractor no longer matches the code)" % (count, what, need, floor),
+                  "only %d instances of %s found, floor is %d (a third of the %d counted by hand; the extractor no longer matches the code)" % (count, what, need, floor),
                   nontrivial=False)
 
     def note(self, msg):
